@@ -154,6 +154,11 @@ class Evaluator:
         nontrivial = False
         first = None
         for mp, rp in zip(self.mpts, self.rpts):
+            if mp.t is None and qast.user_predicate_raises(ast, mp):
+                # e.g. Time.test(operator.ge, t) on a point without a time: the caller's predicate is not total on
+                # this point, so neither a truth value nor "does not raise" is owed
+                res.count("caller_predicate_not_total_skipped")
+                continue
             want = qast.holds(ast, mp)
             res.evaluations += 1
             try:
